@@ -275,7 +275,14 @@ impl BinaryDeserializer for Duration {
     fn deserialize(context: &mut DeserializationContext<'_>) -> Result<Self> {
         let seconds = context.read_u64()?;
         let nanos = context.read_u32()?;
-        Ok(Duration::new(seconds, nanos))
+        // Duration::new panics if the carry of the nanoseconds overflows the seconds
+        let carry = (nanos / 1_000_000_000) as u64;
+        match seconds.checked_add(carry) {
+            Some(seconds) => Ok(Duration::new(seconds, nanos % 1_000_000_000)),
+            None => Err(Error::DeserializationFailure(format!(
+                "Failed to deserialize Duration: overflow {seconds} {nanos}"
+            ))),
+        }
     }
 }
 
